@@ -47,7 +47,13 @@ Inductive aev :=
 | AObserve (done connected : bool) (err : Z)
                                     (* the three lifecycle accessors read together: Done() closed?, IsConnected()?, and the
                                        class of Err() (0 = nil) *)
-| AWatchViolation.                  (* a concurrent sampler saw Done() closed with Err() == nil or IsConnected() == true *)
+| AWatchViolation
+| AResult (c r : Z)                 (* call c returned successfully and its result buffer holds the value with nonce r *)
+| ABuf (c : Z) (same : bool)        (* re-read after the receive path has drained: does the result buffer of the returned
+                                       call c still hold what it held when the call returned? *)
+| ARecord (k : fkind) (nonce size : Z).
+                                    (* an instrumentation record was stored: message kind from its tag, the operation it
+                                       belongs to (matched through its method), its Size field *)                  (* a concurrent sampler saw Done() closed with Err() == nil or IsConnected() == true *)
                                     (* a snapshot at quiescence: size of the pending-call table, goroutines of the library
                                        still alive, Done() closed?, IsConnected()?, Err() == nil? *)
 
